@@ -174,13 +174,36 @@ func addSelectionSetToSanitizedResult(s ast.SelectionSet, ss ...ast.Selection) a
 			continue
 		}
 
-		// the same response key selected again: a leaf is already there,
-		// the sub-selections of an object are merged (GraphQL field merging)
+		// the same response key selected again (GraphQL field merging)
+		if !isSameDirectives(existing.Directives, f.Directives) {
+			// @skip / @include differ between the occurrences: leave the merging to the service
+			s = append(s, sel)
+			continue
+		}
+
+		// a leaf is already there, the sub-selections of an object are merged
 		if existing != f && len(existing.SelectionSet) > 0 && len(f.SelectionSet) > 0 {
 			existing.SelectionSet = addSelectionSetToSanitizedResult(existing.SelectionSet, f.SelectionSet...)
 		}
 	}
 	return s
+}
+
+func isSameDirectives(a, b ast.DirectiveList) bool {
+	if len(a) != len(b) {
+		return false
+	}
+	for i := range a {
+		if a[i].Name != b[i].Name || len(a[i].Arguments) != len(b[i].Arguments) {
+			return false
+		}
+		for j := range a[i].Arguments {
+			if a[i].Arguments[j].Name != b[i].Arguments[j].Name || a[i].Arguments[j].Value.String() != b[i].Arguments[j].Value.String() {
+				return false
+			}
+		}
+	}
+	return true
 }
 
 // selectionSetFieldAliased returns the field of ss with the given response key
